@@ -546,7 +546,22 @@ func checkErrOverwritten(c *core.Ctx, l *core.Ledger, rule string, rels []string
 								continue
 							}
 							for _, rr := range *bo.Referrers() {
-								if ifi, isIf := rr.(*ssa.If); isIf && (ifi.Block() == b2 || ifi.Block().Dominates(b2)) {
+								ifi, isIf := rr.(*ssa.If)
+								if !isIf {
+									continue
+								}
+								// the second call runs where the first error was found nil — or, at least, after a test of it
+								// whose non-nil edge does not lead to the second call (that edge replaces a real failure)
+								nilSucc, errSucc := ifi.Block().Succs[0], ifi.Block().Succs[1]
+								if bo.Op == token.NEQ {
+									nilSucc, errSucc = errSucc, nilSucc
+								}
+								underErr := len(errSucc.Preds) == 1 && (errSucc == b2 || errSucc.Dominates(b2))
+								underNil := nilSucc == b2 || nilSucc.Dominates(b2)
+								if underErr && !underNil {
+									continue // replaced exactly when it is an error
+								}
+								if ifi.Block() == b2 || ifi.Block().Dominates(b2) {
 									tested = true
 								}
 							}
